@@ -255,6 +255,32 @@ class FakeListener:
         pass
 
 
+class BrineWatch:
+    """stands in for `brine` inside rpyc.utils.registry for the duration of a run: the real module; it only notes when
+    load / dump hit the interpreter's recursion limit (and lets the error through)"""
+    def __init__(self, real, script):
+        self._real, self._script = real, script
+
+    def load(self, data):
+        try:
+            return self._real.load(data)
+        except RecursionError:
+            if self._script.cur is not None:
+                self._script.cur["rl"] = True
+            raise
+
+    def dump(self, obj):
+        try:
+            return self._real.dump(obj)
+        except RecursionError:
+            if self._script.cur is not None:
+                self._script.cur["rd"] = True
+            raise
+
+    def __getattr__(self, name):
+        return getattr(self._real, name)
+
+
 class Script:
     """feeds the events of one history to the running `_work` loop and records what each one did"""
     def __init__(self, clock, events):
@@ -305,14 +331,20 @@ def snapshot(services):
                               for a, t in inner.items())) for name, inner in services.items())
 
 
-def run_real(mode, pruning_ms, fd_limit, events, cb_raises=False, real_log=False):
-    """run the real `_work` over the history; returns the list of per-event records"""
+def run_real(mode, pruning_ms, fd_limit, events, cb_raises=False, real_log=False, reclimit=None, pad=0):
+    """run the real `_work` over the history; returns the list of per-event records.  `reclimit`: run the loop under
+    this recursion limit (the harness itself raises it); `pad`: extra frames below `_work` (the depth at which a nested
+    value stops being loadable / dumpable depends on the parity of the stack)"""
     with warnings.catch_warnings():
         warnings.simplefilter("ignore", DeprecationWarning)      # Logger.warn
-        return _run_real(mode, pruning_ms, fd_limit, events, cb_raises, real_log)
+        return _run_real(mode, pruning_ms, fd_limit, events, cb_raises, real_log, reclimit, pad)
 
 
-def _run_real(mode, pruning_ms, fd_limit, events, cb_raises, real_log):
+def _padded(fn, pad):
+    return fn() if pad <= 0 else _padded(fn, pad - 1)
+
+
+def _run_real(mode, pruning_ms, fd_limit, events, cb_raises, real_log, reclimit=None, pad=0):
     r = reg()
     cls = classes()[mode]
     clock = Clock()
@@ -325,22 +357,27 @@ def _run_real(mode, pruning_ms, fd_limit, events, cb_raises, real_log):
     if mode == "tcp":
         srv._connected_sockets = {}
     script.srv = srv
-    saved = r.time
+    saved, saved_brine, saved_limit = r.time, r.brine, sys.getrecursionlimit()
     r.time = clock
+    r.brine = BrineWatch(saved_brine, script)
     try:
         srv.active = True
         try:
-            srv._work()
+            if reclimit:
+                sys.setrecursionlimit(reclimit)
+            try:
+                _padded(srv._work, pad)
+            finally:
+                sys.setrecursionlimit(saved_limit)
         except Hang:
             script.finalize(hang=True, alive=False)
-        except RecursionError:
-            script.finalize(alive=False, recursion=True)
-        except Exception as ex:  # noqa: the loop died
+        except Exception as ex:  # noqa: the loop died (a RecursionError out of `_work` is the registry's, never hidden)
             script.finalize(alive=False, died=valtext.err_name(ex))
         else:
             script.finalize()
     finally:
-        r.time = saved
+        r.time, r.brine = saved, saved_brine
+        sys.setrecursionlimit(saved_limit)
     return script.records
 
 
@@ -519,7 +556,7 @@ def real_socket_correspondence(ctx, c, r):
                 events += [("s", k, "127.0.0.1"), ("t", 5000)]
             else:
                 events.append(("c", k, "127.0.0.1", d))
-        line = run_driver([op_line(mode, pruning, 1000, events)], exe="drv_registry")[0]
+        line = run_driver([op_line(mode, pruning, 1000, events, [x for x in recs])], exe="drv_registry")[0]
         if line in ("not-modelled", "bad-op"):
             c.count("skipped:real-sockets-" + line)
             continue
@@ -601,21 +638,28 @@ def hints_for(data):
     return hints
 
 
-def op_line(mode, pruning_ms, fd_limit, events):
+def op_line(mode, pruning_ms, fd_limit, events, recs=None):
+    """`recs`: the records of the real run of these events; from them only the two facts about the INTERPRETER are
+    taken (did brine.load / brine.dump hit the recursion limit inside the registry during that event)"""
     r = reg()
     pr = pruning_ms if pruning_ms is not None else int(r.DEFAULT_PRUNING_TIMEOUT * 1000)
     toks = ["reg", mode, str(pr), str(fd_limit)]
+    k = 0
     for ev in events:
         if ev[0] == "t":
             toks += ["t", str(ev[1])]
-        elif ev[0] == "d":
+            continue
+        rec = recs[k] if recs is not None and k < len(recs) else {}
+        k += 1
+        limit = (["RL"] if rec.get("rl") else []) + (["RD"] if rec.get("rd") else [])
+        if ev[0] == "d":
             data = ev[2]
             seen = data[:r.MAX_DGRAM_SIZE] if mode == "udp" else data
-            h = hints_for(seen)
+            h = hints_for(seen) + limit
             toks += ["d", data.hex() or "-", valtext.to_text(ev[1]), str(len(h))] + h
         elif ev[0] == "c":
             data = ev[3]
-            h = hints_for(data[:r.MAX_DGRAM_SIZE])
+            h = hints_for(data[:r.MAX_DGRAM_SIZE]) + limit
             toks += ["c", str(ev[1]), data.hex() or "-", valtext.to_text(ev[2]), str(len(h))] + h
         elif ev[0] == "s":
             toks += ["s", str(ev[1])]
@@ -793,6 +837,45 @@ def host_shape_cases(r, shapes):
     return out
 
 
+DEEP_LIMIT = 1000       # the interpreter's default recursion limit, under which a registry normally runs
+
+
+def nested(depth, leaf):
+    """brine encoding of `leaf` wrapped in `depth` one-element tuples, built without recursion"""
+    return bytes([0x10]) * depth + dump(leaf)
+
+
+def deep_cases(ctx):
+    """values nested near the recursion limit as port and as name: the depth at which brine.load still succeeds but
+    brine.dump of the reply (which nests the port as deep again) no longer does is one single depth, and which one
+    depends on the parity of the stack below `_work` - so a whole window of depths, both parities, several leaves
+    (they need different numbers of frames to load and to dump).  Run under the default recursion limit."""
+    out = []
+    lo, hi = DEEP_LIMIT // 2 - 60, DEEP_LIMIT // 2 + 6
+    leaves = [(7, range(lo, hi)), (300, range(hi - 36, hi)), ("x", range(hi - 36, hi)), (b"", range(hi - 36, hi)),
+              ((), range(hi - 36, hi)), (frozenset(), range(hi - 36, hi)), (1.5, range(hi - 36, hi))]
+    if ctx.tier == "thorough":
+        leaves = [(l, range(lo - 100, hi)) for l, _ in leaves]
+    k = 0
+    for leaf, depths in leaves:
+        for depth in depths:
+            for pad in (0, 1):
+                mode = ("base", "udp", "tcp")[k % 3]
+                k += 1
+                head = dump(("RPYC", "REGISTER", (("deep",), 7)))[:-1]
+                reg_deep_port = head + nested(depth, leaf)
+                reg_deep_name = dump(("RPYC", "REGISTER", (7, 7)))[:-2] + nested(depth, leaf) + dump(7)
+                q_deep_name = dump(("RPYC", "QUERY", (7,)))[:-1] + nested(depth, leaf)
+                seq = [cmd_register(["calc"], 18812), reg_deep_port, cmd_query("deep"), cmd_query("DEEP"), reg_deep_name,
+                       q_deep_name, cmd_unregister(7), cmd_query("calc"), cmd_query("deep")]
+                if mode == "tcp":
+                    ev = [("t", 1000)] + [("c", i, "10.0.0.1", d) for i, d in enumerate(seq)]
+                else:
+                    ev = [("t", 1000)] + [("d", "10.0.0.1", d) for d in seq]
+                out.append(("deep", mode, 10000, 1000, ev, False, k % 5 == 0, DEEP_LIMIT, pad))
+    return out
+
+
 def wellformed_pool(r):
     out = []
     for _ in range(60):
@@ -865,8 +948,8 @@ def classify(mode, data):
     return cmd.lower()
 
 
-def run_case(mode, pruning, fd_limit, events, cb_raises=False, real_log=False):
-    recs = run_real(mode, pruning, fd_limit, events, cb_raises, real_log)
+def run_case(mode, pruning, fd_limit, events, cb_raises=False, real_log=False, reclimit=None, pad=0):
+    recs = run_real(mode, pruning, fd_limit, events, cb_raises, real_log, reclimit, pad)
     return recs, valtext.canon(impl_value(mode, recs))
 
 
@@ -917,15 +1000,21 @@ def correspondence(ctx):
             odd = mode == "base" and (i // batch) % 6 == 0
             ev += [("d", ODD_HOSTS[k % len(ODD_HOSTS)] if odd and k % 3 == 0 else HOSTS[k % 3], d) for k, d in enumerate(chunk)]
         cases.append(("datagrams", mode, pruning, 1000, ev, False, (i // batch) % 4 == 2))
+    cases = [x + (None, 0) for x in cases] + deep_cases(ctx)
     lines, impl = [], []
-    for tag, mode, pruning, fd_limit, events, cb, real_log in cases:
-        try:
-            recs, want = run_case(mode, pruning, fd_limit, events, cb, real_log)
-        except RecursionError:
-            c.count("skipped:recursion-in-harness")
-            continue
-        lines.append(op_line(mode, pruning, fd_limit, events))
-        impl.append((tag, mode, pruning, fd_limit, events, recs, want))
+    for tag, mode, pruning, fd_limit, events, cb, real_log, reclimit, pad in cases:
+        # (a RecursionError raised by the registry is recorded inside run_real as the death of its loop; one raised here
+        # can only come from the harness's own decoding of a deep reply for comparison)
+        recs, want = run_case(mode, pruning, fd_limit, events, cb, real_log, reclimit, pad)
+        if tag == "deep":
+            c.count("deep:histories")
+            for rec in recs:
+                if rec.get("rl"):
+                    c.count("deep:brine.load hit the recursion limit inside the registry")
+                if rec.get("rd"):
+                    c.count("deep:brine.dump(reply) hit the recursion limit inside the registry")
+        lines.append(op_line(mode, pruning, fd_limit, events, recs))
+        impl.append((tag, mode, pruning, fd_limit, events, recs, want, dict(reclimit=reclimit, pad=pad)))
         if real_log:
             c.count("run-with-real-logging.Logger")
     ctx.log("real code: %d histories, %d datagrams in %.1fs" % (len([x for x in cases if x[0] == "history"]), n_dgrams,
@@ -935,22 +1024,22 @@ def correspondence(ctx):
     except DriverError as ex:
         c.error = str(ex)
         return c
-    for (tag, mode, pruning, fd_limit, events, recs, want), got_line in zip(impl, outs):
+    for (tag, mode, pruning, fd_limit, events, recs, want, kw), got_line in zip(impl, outs):
         got = canon_model(got_line)
         evs = [e for e in events if e[0] != "t"]
         if got == "not-modelled":
             c.count("skipped:not-modelled(NaN port / slice over frozenset)")
             # the stream up to the offending datagram is still compared: every prefix in one driver call
             cuts = [cut_events(events, k) for k in range(len(evs))]
-            gs = run_driver([op_line(mode, pruning, fd_limit, cut) for cut in cuts], exe="drv_registry")
+            gs = run_driver([op_line(mode, pruning, fd_limit, cut, recs) for cut in cuts], exe="drv_registry")
             for cut, gl in zip(cuts, gs):
                 g = canon_model(gl)
                 if g == "not-modelled":
                     break
-                _r, w = run_case(mode, pruning, fd_limit, cut, False)
+                _r, w = run_case(mode, pruning, fd_limit, cut, False, **kw)
                 c.evaluations += 1
                 if g != w:
-                    c.disagreements.append(dict(case=dict(kind="history", mode=mode, pruning_ms=pruning, fd_limit=fd_limit,
+                    c.disagreements.append(dict(case=dict(kind="history", mode=mode, pruning_ms=pruning, fd_limit=fd_limit, reclimit=kw["reclimit"], pad=kw["pad"],
                                                           events=enc_events(cut)), impl=w[-600:], model=g[-600:]))
                     break
             continue
@@ -962,7 +1051,7 @@ def correspondence(ctx):
                 # a datagram that was not answered was refused: it must have left no trace at all
                 if snap_now != prev_snap or rec["notes"]:
                     c.count("REFUSED-DATAGRAM-LEFT-RESIDUE")
-                    c.disagreements.append(dict(case=dict(kind="history", mode=mode, pruning_ms=pruning, fd_limit=fd_limit,
+                    c.disagreements.append(dict(case=dict(kind="history", mode=mode, pruning_ms=pruning, fd_limit=fd_limit, reclimit=kw["reclimit"], pad=kw["pad"],
                                                           events=enc_events(cut_events(events, k_ev))),
                                                 impl="refused datagram changed the table: %s -> %s" % (prev_snap[-300:], snap_now[-300:]),
                                                 model="(a refused datagram changes nothing)", source=tag))
@@ -982,8 +1071,8 @@ def correspondence(ctx):
                 c.signatures.add("%s:%s:%s:%d:%d" % (mode, br, "r" if rec["reply"] is not None else "-", min(len(rec["notes"]), 4),
                                                     min(nserv, 6)))
         if got != want:
-            k = first_difference(mode, pruning, fd_limit, events) if len(c.disagreements) < 25 else None
-            c.disagreements.append(dict(case=dict(kind="history", mode=mode, pruning_ms=pruning, fd_limit=fd_limit,
+            k = first_difference(mode, pruning, fd_limit, events, **kw) if len(c.disagreements) < 25 else None
+            c.disagreements.append(dict(case=dict(kind="history", mode=mode, pruning_ms=pruning, fd_limit=fd_limit, reclimit=kw["reclimit"], pad=kw["pad"],
                                                   events=enc_events(cut_events(events, k) if k is not None else events)),
                                         impl=want[-600:], model=got[-600:], source=tag))
         elif len(c.samples) < 12 and (len(lines) < 12 or c.evaluations % 1013 < 25):
@@ -1028,13 +1117,13 @@ def cut_events(events, k):
     return out
 
 
-def first_difference(mode, pruning, fd_limit, events):
+def first_difference(mode, pruning, fd_limit, events, **kw):
     n = len([e for e in events if e[0] != "t"])
     for k in range(n):
         cut = cut_events(events, k)
         try:
-            _r, w = run_case(mode, pruning, fd_limit, cut, False)
-            g = canon_model(run_driver([op_line(mode, pruning, fd_limit, cut)], exe="drv_registry")[0])
+            _r, w = run_case(mode, pruning, fd_limit, cut, False, **kw)
+            g = canon_model(run_driver([op_line(mode, pruning, fd_limit, cut, _r)], exe="drv_registry")[0])
         except Exception:  # noqa
             return k
         if g != w:
@@ -1113,12 +1202,12 @@ def flat_table(services):
     return dict(((name, h, p), t) for name, inner in services for h, p, t in inner)
 
 
-def oracle_history(mode, pruning, fd_limit, events, meaning):
+def oracle_history(mode, pruning, fd_limit, events, meaning, reclimit=None, pad=0):
     """None if the statement holds on this run of the real code, else (description, signature).
     `meaning[i]` says what events[i] is meant to be (a generated well-formed command, or 'other')."""
     r = reg()
     pr = pruning if pruning is not None else int(r.DEFAULT_PRUNING_TIMEOUT * 1000)
-    recs = run_real(mode, pruning, fd_limit, events, False)
+    recs = run_real(mode, pruning, fd_limit, events, False, False, reclimit, pad)
     ref = Reference(pr)
     now = 0
     k = 0
@@ -1315,7 +1404,7 @@ def boundary_histories():
     return hs
 
 
-def shrink(mode, pruning, fd_limit, events, sig):
+def shrink(mode, pruning, fd_limit, events, sig, **kw):
     """drop events while the same failure remains"""
     cur = list(events)
     changed = True
@@ -1324,7 +1413,7 @@ def shrink(mode, pruning, fd_limit, events, sig):
         for i in range(len(cur) - 1, -1, -1):
             trial = cur[:i] + cur[i + 1:]
             try:
-                res = oracle_history(mode, pruning, fd_limit, trial, meaning_of(trial))
+                res = oracle_history(mode, pruning, fd_limit, trial, meaning_of(trial), **kw)
             except BaseException:  # noqa
                 res = None
             if res and res[1] == sig:
@@ -1342,25 +1431,27 @@ def oracle_search(ctx, corr, broken):
         for d in corr.disagreements[:200]:
             cs = d.get("case", {})
             if cs.get("kind") in ("history", "real-sockets"):
-                yield cs["mode"], cs["pruning_ms"], cs["fd_limit"], dec_events(cs["events"]), None
+                yield (cs["mode"], cs["pruning_ms"], cs["fd_limit"], dec_events(cs["events"]), None,
+                       dict(reclimit=cs.get("reclimit"), pad=cs.get("pad", 0)))
         for h in boundary_histories():
-            yield h + (None,)
+            yield h + (None, {})
+        for x in deep_cases(ctx):
+            yield x[1], x[2], x[3], x[4], None, dict(reclimit=x[7], pad=x[8])
         i = 0
         while _walltime.time() < deadline:
             mode = ("base", "udp", "tcp")[i % 3]
             i += 1
             pruning, fd_limit, events, meaning = gen_history(r, mode)
-            yield mode, pruning, fd_limit, events, meaning
-    for mode, pruning, fd_limit, events, meaning in candidates():
-        try:
-            res = oracle_history(mode, pruning, fd_limit, events, meaning or meaning_of(events))
-        except RecursionError:
-            continue
+            yield mode, pruning, fd_limit, events, meaning, {}
+    for mode, pruning, fd_limit, events, meaning, kw in candidates():
+        # (a RecursionError of the registry's own never reaches this point: run_real records it as the death of the loop)
+        res = oracle_history(mode, pruning, fd_limit, events, meaning or meaning_of(events), **kw)
         if res and res[1] not in known:
             msg, sig = res
-            small = shrink(mode, pruning, fd_limit, events, sig)
-            res2 = oracle_history(mode, pruning, fd_limit, small, meaning_of(small)) or res
-            return (dict(kind="history", mode=mode, pruning_ms=pruning, fd_limit=fd_limit, events=enc_events(small)),
+            small = shrink(mode, pruning, fd_limit, events, sig, **kw)
+            res2 = oracle_history(mode, pruning, fd_limit, small, meaning_of(small), **kw) or res
+            return (dict(kind="history", mode=mode, pruning_ms=pruning, fd_limit=fd_limit, events=enc_events(small),
+                         reclimit=kw.get("reclimit"), pad=kw.get("pad", 0)),
                     res2[0], res2[1])
     return None
 
@@ -1369,13 +1460,14 @@ def replay(case):
     mode, pruning, fd_limit = case["mode"], case["pruning_ms"], case["fd_limit"]
     events = dec_events(case["events"])
     out = dict(case=case)
-    recs, want = run_case(mode, pruning, fd_limit, events)
+    kw = dict(reclimit=case.get("reclimit"), pad=case.get("pad", 0))
+    recs, want = run_case(mode, pruning, fd_limit, events, **kw)
     out["implementation"] = want
     out["implementation_events"] = [dict((k, (v.hex() if isinstance(v, bytes) else v)) for k, v in rec.items()) for rec in recs]
-    res = oracle_history(mode, pruning, fd_limit, events, meaning_of(events))
+    res = oracle_history(mode, pruning, fd_limit, events, meaning_of(events), **kw)
     out["oracle"] = res[0] if res else "holds"
     try:
-        out["model"] = canon_model(run_driver([op_line(mode, pruning, fd_limit, events)], exe="drv_registry")[0])
+        out["model"] = canon_model(run_driver([op_line(mode, pruning, fd_limit, events, recs)], exe="drv_registry")[0])
     except DriverError as ex:
         out["model"] = "driver: %s" % ex
     out["agree"] = out["model"] == want
